@@ -29,6 +29,7 @@ type c04Params struct {
 	Thr      int // passive threshold; 0 = passive off
 	Active   bool
 	Held     bool // the held-request alphabet (see c04Events)
+	Gone     bool `json:",omitempty"` // the alphabet with clients that go away (see c04Events)
 }
 
 const c04Window = 10 * time.Second
@@ -46,6 +47,8 @@ type c04Inst struct {
 	mon    []*c04Mon
 	out    string
 	held   *held
+	// heldGone: the backend the held request is in flight at was removed (and registered anew)
+	heldGone bool
 }
 
 func c04Events(p c04Params) []string {
@@ -69,7 +72,15 @@ func c04Events(p c04Params) []string {
 		// a request that stays in flight at its backend while other events happen (the backend is
 		// ejected, its window lapses ...) and ends later with a 200: separate, smaller searches
 		// (c04HeldSpec) in which ejections are injected, so that the windows are known exactly
-		return []string{"req:10.0.0.1", "req:10.0.0.2", "start-held", "finish-held", "eject:b0", "eject:b1", "clock+4s(<window)", "clock+11s(>window)"}
+		// finish-held-500: it ends badly instead; readd:b0 while it is in flight: what it ends
+		// with is the business of the backend that is gone, not of the one registered since
+		return []string{"req:10.0.0.1", "req:10.0.0.2", "start-held", "finish-held", "eject:b0", "eject:b1", "clock+4s(<window)", "clock+11s(>window)", "finish-held-500", "readd:b0"}
+	}
+	if p.Gone {
+		// clients that go away before their request is sent on, or while it is in flight at the
+		// backend: the client gets nothing (the proxy writes a 502 nobody reads), but that is no
+		// failed response of the backend - separate, smaller searches
+		return []string{"req:10.0.0.1", "req:10.0.0.2", "req-gone:10.0.0.1", "req-gone-midway:10.0.0.2", "flip-500:b0", "flip-500:b1", "clock+4s(<window)", "clock+11s(>window)"}
 	}
 	if p.Active {
 		ev = append(ev, "tick")
@@ -199,6 +210,22 @@ func (in *c04Inst) Step(ev int) *vh.HViol {
 		if v := in.doRequest(e[4:]); v != nil {
 			return v
 		}
+	case strings.HasPrefix(e, "req-gone"):
+		now := in.s.Clock()
+		before := in.k.hitsVector()
+		var res reqResult
+		if strings.HasPrefix(e, "req-gone-midway:") {
+			res = in.k.requestGoneMidway(e[len("req-gone-midway:"):])
+		} else {
+			res = in.k.requestCancelled(e[len("req-gone:"):])
+		}
+		in.out = fmt.Sprint(res.Status)
+		for i, h := range in.k.hitsVector() {
+			// neither a failed nor a good response of the backend: the monitor's counts stay
+			if m := in.mon[i]; h > before[i] && m.until >= 0 && now <= m.until {
+				return &vh.HViol{Key: "C04/traffic-inside-window/" + in.p.Strategy, What: fmt.Sprintf("%s: b%d received a client request at t=%v inside its unhealthy window (until t=%v)", in.cfg(), i, now, m.until)}
+			}
+		}
 	case strings.HasPrefix(e, "flip-"):
 		bad := e[len("flip-"):strings.Index(e, ":")]
 		st := in.k.stub(e[strings.Index(e, ":")+1:])
@@ -229,17 +256,24 @@ func (in *c04Inst) Step(ev int) *vh.HViol {
 			in.held = h
 			in.out = "held-at:" + h.at.name
 		}
-	case e == "finish-held":
+	case e == "finish-held" || e == "finish-held-500":
 		if in.held == nil {
 			in.out = "nothing-held"
 			break
 		}
 		h := in.held
 		in.held = nil
+		was := h.at.mode
+		if e == "finish-held-500" {
+			h.at.mode = "500"
+		}
 		in.k.release(h.at)
+		h.at.mode = was
 		in.out = fmt.Sprintf("held-finished:%d", h.res.Status)
+		gone := in.heldGone
+		in.heldGone = false
 		for i, st := range in.k.stubs {
-			if st == h.at {
+			if st == h.at && !gone {
 				if h.res.Status >= 500 {
 					in.mon[i].consec++
 					in.mon[i].cum++
@@ -251,12 +285,12 @@ func (in *c04Inst) Step(ev int) *vh.HViol {
 	case strings.HasPrefix(e, "eject:"):
 		i := int(e[len(e)-1] - '0')
 		in.k.lb.MarkBackendUnhealthy(in.k.backendByName(fmt.Sprintf("b%d", i)), c04Window)
-		in.mon[i].until, in.mon[i].consec, in.mon[i].cum = in.s.Clock()+c04Window, 0, 0
+		// like an ejection by a failed probe: the failed responses on record stay on record
+		in.mon[i].until, in.mon[i].consec = in.s.Clock()+c04Window, 0
 		in.out = "ejected"
 	case e == "readd:b0":
 		if in.held != nil && in.held.at != nil && in.held.at.name == "b0" {
-			in.out = "b0-busy"
-			break
+			in.heldGone = true
 		}
 		in.k.lb.RemoveBackend("b0")
 		if err := in.k.lb.AddBackend(config.BackendConfig{Name: "b0", Address: "http://b0.test:80"}); err != nil {
@@ -353,7 +387,7 @@ func (in *c04Inst) Fingerprint() string {
 		}
 	}
 	if in.held != nil {
-		b.WriteString("|held:" + in.held.at.name)
+		b.WriteString("|held:" + in.held.at.name + fmt.Sprint(in.heldGone))
 	}
 	b.WriteString(in.k.novel())
 	return b.String()
@@ -362,7 +396,7 @@ func (in *c04Inst) Fingerprint() string {
 func c04Spec(p c04Params, depth int) vh.HSpec {
 	ev := c04Events(p)
 	return vh.HSpec{
-		Name: fmt.Sprintf("health-%s-n%d-thr%d-active%v%s", p.Strategy, p.N, p.Thr, p.Active, map[bool]string{true: "-held-requests"}[p.Held]), KeyPrefix: "C04", Events: ev, Depth: depth, Params: p,
+		Name: fmt.Sprintf("health-%s-n%d-thr%d-active%v%s", p.Strategy, p.N, p.Thr, p.Active, map[bool]string{true: "-held-requests"}[p.Held]+map[bool]string{true: "-clients-going-away"}[p.Gone]), KeyPrefix: "C04", Events: ev, Depth: depth, Params: p,
 		New: func(s *vrt.Sched) vh.HInstance {
 			k := newKit(s, kitOpts{Strategy: p.Strategy, N: p.N, Weights: []int{2, 1, 1}[:p.N], PassiveThr: p.Thr, Window: 10, Active: p.Active})
 			in := &c04Inst{s: s, k: k, p: p, events: ev}
@@ -422,6 +456,15 @@ func TestVerifC04H(t *testing.T) {
 		for _, cfg := range [][2]int{{0, 1}, {2, 0}} {
 			if vh.MyShard(i) {
 				vh.RunH(r, "TestVerifC04H", c04Spec(c04Params{Strategy: strat, N: 2, Thr: cfg[0], Active: cfg[1] == 1, Held: true}, depth-1))
+			}
+			i++
+		}
+	}
+	// clients that go away: see c04Events
+	for _, strat := range allStrategies {
+		for thr := 1; thr <= 3; thr++ {
+			if vh.MyShard(i) {
+				vh.RunH(r, "TestVerifC04H", c04Spec(c04Params{Strategy: strat, N: 2, Thr: thr, Gone: true}, depth-1))
 			}
 			i++
 		}
